@@ -959,6 +959,11 @@ class FnAnalysis:
                             mm = re.search(r'Range::Range\{(\d+), (\d+)\}', it)
                             if mm:
                                 mult = int(mm.group(2)) - int(mm.group(1))
+                            else:
+                                # an iterator over a collection of known size (limbs.iter_mut().rev()): its element count
+                                cnt = self.iter_count(norm(P.operand(th['args'][0], hb, len(fn.blocks[hb]['stmts']))), hb, 0)
+                                if cnt[0] == cnt[1] and cnt[1] < INF:
+                                    mult = cnt[1]
             if mult is None:
                 continue
             total[cursors[root]] = total.get(cursors[root], 0) + mult * int(m.group(1)) // 8
